@@ -63,6 +63,17 @@ fn ratio_bound(k: K) -> Option<f64> {
     }
 }
 
+/// Linear views over LaguerreRSI over the raw stream or plain low-passes: on a slow strictly rising ramp
+/// LaguerreRSI ends up reporting exactly 1 in both replicas (see generate()), and whatever linear filters sit
+/// above it then see identical input and forget the rest geometrically.
+fn ramp_chain(tree: &Spec) -> bool {
+    let mut s = tree;
+    while matches!(s.k, K::Ema | K::EmaAlpha | K::LaguerreFilter | K::SuperSmoother | K::Roofing | K::CyberCycle | K::Sma | K::Alma) {
+        s = &s.kids[0];
+    }
+    s.k == K::LaguerreRsi && !s.kids[0].any(&|x| !matches!(x.k, K::Echo | K::Ema | K::EmaAlpha | K::Sma | K::Alma | K::LaguerreFilter))
+}
+
 fn gen_c09_n(r: &mut Rng, k: K) -> usize {
     let lo = min_window(k).max(if matches!(k, K::Roofing) { 2 } else { 1 });
     let x = r.unit();
@@ -286,14 +297,39 @@ impl Prop for C09 {
             // the order l0 > l1 > l2 > l3 with gaps of at least one ramp step (about S/(1.5 T), against differences
             // between the replicas of 1e-9 S and less from T on), CD is exactly zero in both replicas and both
             // report exactly 1: a sustained trend must not let the state of before the merge show through.
-            let ramp_ok = tree.k == K::LaguerreRsi && !tree.kids[0].any(&|x| !matches!(x.k, K::Echo | K::Ema | K::EmaAlpha | K::Sma | K::Alma | K::LaguerreFilter));
-            let tail_shape = if ramp_ok && r.chance(0.3) { 2 } else { tail_shape };
+            let ramp_ok = ramp_chain(&tree);
+            let tail_shape = if ramp_ok && r.chance(0.4) { 2 } else { tail_shape };
+            // EFT directly over the stream: its normalised input is a function of the window alone and everything
+            // after it (the linear average, the clamp, the 0.5-contraction) forgets geometrically whatever the data,
+            // so any tail is admissible - in particular one that repeats with a period that equals or divides the
+            // window length (every value that enters then equals the one that leaves)
+            let resonant: Option<usize> = if tree.k == K::Eft && tree.kids[0].k == K::Echo && r.chance(0.3) {
+                let n = tree.n.max(1);
+                let mut cands: Vec<usize> = vec![n, 2 * n];
+                for d in [2usize, 3, 4] {
+                    if n % d == 0 && n / d >= 2 {
+                        cands.push(n / d);
+                        cands.push(d);
+                    }
+                }
+                let p = if r.chance(0.7) { *r.pick(&cands) } else { r.range(2, 12) };
+                Some(p.max(2))
+            } else {
+                None
+            };
             // "and stays there": 1.5% of the tails run on for thousands to a million deliveries after 2T
             let extra_tail = if r.chance(0.015) { crate::feed::long_len(r) } else { 0 };
             // mostly up to 500 S; in 15% of the runs a burst of 1e6..1e12 S (the horizon grows with the logarithm of it)
             let spike: f64 = if r.chance(0.15) { *r.pick(&[1e6, 1e9, 1e12]) / 2.0 } else { *r.pick(&[10.0, 100.0, 1000.0]) / 2.0 };
             let t_h = (t_h as f64 * horizon_stretch(spike.max(2.0))).ceil() as usize;
-            let u = gen_shape(r, tail_shape, 2 * t_h + 2 + extra_tail, 1.0, false);
+            let u = match resonant {
+                Some(p) => {
+                    let pat: Vec<f64> = (0..p).map(|_| r.uniform(-2.0, 2.0)).collect();
+                    (0..2 * t_h + 2 + extra_tail).map(|i| pat[i % p]).collect()
+                }
+                None => gen_shape(r, tail_shape, 2 * t_h + 2 + extra_tail, 1.0, false),
+            };
+            let tail_shape = if resonant.is_some() { 14 } else { tail_shape };
             let noise = if tail_shape == 9 { 0.05 } else { 0.0 };
             let tail: Vec<f64> = u.iter().map(|x| s_scale * (1.25 + 0.375 * x + noise * (r.unit() - 0.5)).clamp(0.5, 2.0)).collect();
             // prefixes: one base stream, an independent fault realisation for each replica
@@ -398,8 +434,11 @@ impl Prop for C09 {
                         return out;
                     }
                 }
-                if spec.k == K::LaguerreRsi && tail.windows(2).all(|w| w[0] < w[1]) {
+                if spec.any(&|x| x.k == K::LaguerreRsi) && tail.windows(2).all(|w| w[0] < w[1]) {
                     out.stats.hit("reach.laguerre_rsi_on_a_rising_ramp");
+                }
+                if spec.k == K::Eft && spec.n >= 2 && tail.len() > 4 * spec.n && (2 * spec.n..tail.len()).all(|i| tail[i] == tail[i - spec.n]) {
+                    out.stats.hit("reach.eft_tail_period_divides_window");
                 }
                 let (tol, floor) = tol_floor(spec, s_scale);
                 match recovery(spec, &pa, &pb, &tail, floor, tol, stretch) {
@@ -541,7 +580,7 @@ impl Prop for C09 {
     }
 
     fn rule(&self) -> String {
-        "Views cycle systematically through Ema (default and sampled alpha), LaguerreFilter (gamma in {0,0.1..0.9,0.95}), SuperSmoother, RoofingFilter(N,M<=16), CyberCycle, TrendFlex, ReFlex, LaguerreRSI and EhlersFisherTransform over {Ema, Sma, Alma, SuperSmoother, LaguerreFilter}; 30% of runs are two-level chains of these, a quarter of which have a third level. N: 50% from the view's minimum to 9, 37% 10..64, 9% 128, 4% 1000. Mode 'recovery' (7 of 8 runs): two replicas of the same tree; one base stream of 0-400 values gets an independent fault realisation per replica (drop, duplicate, reorder, corrupt, spike bursts up to 500 S - in 15% of the runs 5e5..5e11 S, with the horizon stretched by one third per decade above 1e3 -, up to 300 extra prefix values; S from 1e-12 to 1e9), then both receive the same persistently exciting tail inside [S/2,2S] (uniform noise or random walk; for all-linear chains also sinusoid+noise and exactly constant tails; for LaguerreRSI over the raw stream or a plain low-pass also a slow strictly rising ramp, on which both replicas must end up reporting exactly 1). Oracle: with T = T(view,N) from the documented pole radius, |out_A-out_B| <= tol*scale at every delivery from T to the end of the tail (2T, and in 1.5% of runs thousands to a million deliveries more) (tol 1e-9 linear, 1e-6 ratio-type; scale = max(S or output range, largest |out| in the window)). Mode 'bounded' (1 of 8): one replica, 1.4e5 (3%: 1.1e6; thorough 3e5, 8% 1.1e6) deliveries of a feed bounded by S in any of the 14 shapes; every output finite and within 1e6*S (linear) or the analytic bound 5 / 1 / ln199 (ratio-type). distinct = distinct (topology, feed lengths); non-trivial = prefixes actually differ and the window was compared, or a bounded run reached 1e5 deliveries."
+        "Views cycle systematically through Ema (default and sampled alpha), LaguerreFilter (gamma in {0,0.1..0.9,0.95}), SuperSmoother, RoofingFilter(N,M<=16), CyberCycle, TrendFlex, ReFlex, LaguerreRSI and EhlersFisherTransform over {Ema, Sma, Alma, SuperSmoother, LaguerreFilter}; 30% of runs are two-level chains of these, a quarter of which have a third level. N: 50% from the view's minimum to 9, 37% 10..64, 9% 128, 4% 1000. Mode 'recovery' (7 of 8 runs): two replicas of the same tree; one base stream of 0-400 values gets an independent fault realisation per replica (drop, duplicate, reorder, corrupt, spike bursts up to 500 S - in 15% of the runs 5e5..5e11 S, with the horizon stretched by one third per decade above 1e3 -, up to 300 extra prefix values; S from 1e-12 to 1e9), then both receive the same persistently exciting tail inside [S/2,2S] (uniform noise or random walk; for all-linear chains also sinusoid+noise and exactly constant tails; for LaguerreRSI over the raw stream or a plain low-pass, possibly under further linear filters, also a slow strictly rising ramp, on which LaguerreRSI must end up reporting exactly 1 in both replicas; for EFT directly over the stream also tails that repeat with a period equal to, dividing or doubling the window length). Oracle: with T = T(view,N) from the documented pole radius, |out_A-out_B| <= tol*scale at every delivery from T to the end of the tail (2T, and in 1.5% of runs thousands to a million deliveries more) (tol 1e-9 linear, 1e-6 ratio-type; scale = max(S or output range, largest |out| in the window)). Mode 'bounded' (1 of 8): one replica, 1.4e5 (3%: 1.1e6; thorough 3e5, 8% 1.1e6) deliveries of a feed bounded by S in any of the 14 shapes; every output finite and within 1e6*S (linear) or the analytic bound 5 / 1 / ln199 (ratio-type). distinct = distinct (topology, feed lengths); non-trivial = prefixes actually differ and the window was compared, or a bounded run reached 1e5 deliveries."
             .into()
     }
     fn assumptions(&self) -> Vec<String> {
